@@ -252,6 +252,45 @@ def deep_fault_frames(rnd, depth):
             yield envelope(2, 1, h), 'deep-fault:%s:%d' % (name, depth)
 
 
+def template_key_fault_frames(rnd, depths=(1, 2, 3)):
+    """deep_fault_frames with keys that are special to str.format, %, Template
+    and re at EVERY level (nested container key and faulty entry key), tables
+    and arrays alternating: an error path that builds its message from a key
+    with .format / % must not turn the fault into another exception."""
+    from . import values as gv
+    tails = {
+        'badtag': b'\x07',
+        'badstr': b'S\x00\x00\x00\x02\xff\xfe',
+        'longlen': b'S\x7f\xff\xff\xff',
+        'arrlen': b'A\x00\x00\x01\x00V',
+        'bigts': b'T\xff\xff\xff\xff\xff\xff\xff\xff',
+        'shortint': b'I\x00',
+    }
+    for key in gv.TEMPLATE_KEYS:
+        kb = key.encode('utf-8')
+        kb = bytes([len(kb)]) + kb
+        for name, tail in tails.items():
+            for depth in depths:
+                for via in ('F', 'A'):
+                    v = kb + tail
+                    for i in range(depth):
+                        if via == 'F' or i % 2 == 0:
+                            v = kb + b'F' + struct.pack('>I', len(v)) + v
+                        else:
+                            inner = b'F' + struct.pack('>I', len(v)) + v
+                            v = kb + b'A' + struct.pack('>I', len(inner)) + \
+                                inner
+                    table = struct.pack('>I', len(v)) + v
+                    label = 'template-key-fault:%s:%s%d' % (name, via, depth)
+                    if rnd.random() < 0.5:
+                        p = struct.pack('>HHBB', 10, 10, 0, 9) + table + \
+                            struct.pack('>I', 0) + struct.pack('>I', 0)
+                        yield envelope(1, 0, p), label
+                    else:
+                        h = struct.pack('>HHQH', 60, 0, 0, 0x2000) + table
+                        yield envelope(2, 1, h), label
+
+
 def deep_length_skew_frames(rnd, depth):
     """Nested tables (one per level) whose declared lengths are ALL wrong at
     once, by an amount that depends on the level.  A decoder that retries,
